@@ -42,6 +42,8 @@ MethodOutcome(op, par, argdims) ==
 Outcome(c) ==
   CASE c.fn \in {"full", "zeros", "ones"} -> IF IsNil(c.dims) THEN Accepted(<<>>) ELSE Cond(ValidDims(c.dims), c.dims)
     [] c.fn = "eye" -> Cond(c.n > 0, <<c.n, c.n>>)
+    (* every constructor takes an optional configuration: nil, or a device (only CPU = 1 exists) and the tracking flag *)
+    [] c.fn = "ctor-conf" -> Cond(c.device = 1, IF c.ctor = "eye" THEN <<2, 2>> ELSE IF c.ctor = "tensorof" THEN <<2>> ELSE <<2, 3>>)
     [] c.fn = "randu" -> Cond(c.lo < c.hi /\ (IsNil(c.dims) \/ ValidDims(c.dims)), IF IsNil(c.dims) THEN <<>> ELSE c.dims)
     [] c.fn = "randn" -> Cond(c.sigma > 0 /\ (IsNil(c.dims) \/ ValidDims(c.dims)), IF IsNil(c.dims) THEN <<>> ELSE c.dims)
     [] c.fn = "tensorof" -> LET d == NestDims(c.data, c.depth) IN Cond(d # <<-1>>, d)
